@@ -214,6 +214,41 @@ func c08(c *Ctx) {
 		}
 		c.Expect(n == 2, nil, encU, "two-escape-sites", "expected two escape sites (multi-byte rune, unprintable byte)")
 	})
+	c.Ob("wrappers-and-termination", "R2", "the fast-path wrappers return the empty string only for an empty message, the message itself only after the whole scan found nothing to (un)escape, and otherwise the result of the escaping coder applied to that message; the escaping encoder's loop runs only while bytes remain, and its per-byte loop over a rune is never left early", 6, func() {
+		for _, w := range []struct {
+			f, u *ssa.Function
+			n    string
+		}{{enc, encU, "encode"}, {dec, decU, "decode"}} {
+			nE, nM, nU := 0, 0, 0
+			for _, r := range returnsOf(w.f) {
+				if r.Block() == w.f.Recover {
+					continue
+				}
+				v := r.Results[0]
+				switch {
+				case ConstStr("")(v):
+					nE++
+					c.MustFact(r, w.n+":empty-only-for-an-empty-message", Cmp(ParamV("msg"), token.EQL, ConstStr("")))
+				case ParamV("msg")(v):
+					nM++
+					// the verbatim return is reached only from the scan's own exit (its header), never from inside the body
+					for _, p := range r.Block().Preds {
+						c.Expect(isLoopHeader(p), r, w.f, w.n+":verbatim-only-after-the-whole-scan", "the message is returned verbatim before every byte was scanned")
+					}
+					c.Unreachable(r, w.n+":verbatim-not-for-an-empty-message-arm", Cmp(ParamV("msg"), token.EQL, ConstStr("")))
+				default:
+					call, ok := v.(*ssa.Call)
+					nU++
+					c.Expect(ok && call.Call.StaticCallee() == w.u && ParamV("msg")(call.Call.Args[0]), r, w.f, w.n+":slow-path-is-the-escaping-coder-on-the-message", "the slow path does not return the escaping coder applied to the message")
+				}
+			}
+			c.Expect(nE == 1 && nM == 1 && nU == 1, nil, w.f, w.n+":three-returns", "expected the empty, verbatim and escaping returns")
+		}
+		for _, dr := range callsIn(encU, CalleeX("unicode/utf8", "DecodeRuneInString")) {
+			c.MustFact(dr, "encoder-loop-runs-only-while-bytes-remain", CmpInt(LenOf(AnyV), token.GTR, 0))
+		}
+		c.NoEarlyExit(encU, AnyV, "every-byte-of-a-rune-is-written")
+	})
 	c.Ob("consumption", "R8", "the escaping encoder consumes the input by exactly the decoded rune size, decoding from the current remainder; the decoder skips two extra bytes only after a successful base-16 parse of the two bytes following '%' and otherwise copies the byte", 6, func() {
 		dr := one(c, "DecodeRuneInString call", callsIn(encU, CalleeX("unicode/utf8", "DecodeRuneInString")))
 		n := 0
